@@ -1,8 +1,8 @@
 #!/bin/bash
-# usage: process_seed.sh <PROP> <n>  : takes /tmp/wt-<PROP>/SEED, stores it as seeded/<PROP>-<n>, confirms it in the
+# usage: process_seed.sh <PROP>  : takes /tmp/wt-<PROP>/SEED, stores it as seeded/<PROP>-<n>, confirms it in the
 # scratch worktree and runs the property's quick check against it (apply to /repo, check, revert)
 set -u
-p="$1"; n="$2"; d=/verif/seeded/$p-$n
+p="$1"; n=1; while [ -e /verif/seeded/$p-$n ]; do n=$((n+1)); done; d=/verif/seeded/$p-$n; echo "storing as $p-$n"
 mkdir -p $d && cp /tmp/wt-$p/SEED/* $d/ || exit 2
 /verif/tools/confirm_seed.sh /tmp/wt-$p $d
 echo "--- check"
